@@ -1,6 +1,43 @@
-(** C19 - wire constants (placeholder: the layout theorems are added with C13 / C04). *)
-From Coq Require Import List NArith String.
-From BP Require Import Model.Transcript Model.Nonce.
-Theorem C19_domain_separator : label_string LDomSep = "dom-sep"%string /\ DOMSEP_LEN = 25%nat.
-Proof. split; reflexivity. Qed.
-Print Assumptions C19_domain_separator.
+(** C19 — wire compatibility: the wire constants are literals of the model, with their layout theorems;
+    the recorded vectors and the model-vs-implementation correspondence are the executable part. *)
+From Coq Require Import List Arith NArith Bool String.
+From BP Require Import Model.Codec Model.Transcript Model.Verifier Model.Nonce Model.Gens Proofs.CodecP Proofs.NonceP Proofs.TranscriptP.
+Import ListNotations.
+
+Theorem C19_transcript_labels :
+  map label_string [LDomSep; LH; LG; LN; LT; LM; LCi; LProm; LA; Ly; Lz; LL; LR; Le; LA1; LB; Lr1; Ls1; Ld1; LProof]
+  = ["dom-sep"; "H"; "G"; "N"; "T"; "M"; "Ci"; "vi - minimum_value"; "A"; "y"; "z"; "L"; "R"; "e"; "A1"; "B"; "r1"; "s1"; "d1"; "proof"]%string.
+Proof. reflexivity. Qed.
+Print Assumptions C19_transcript_labels.
+
+Theorem C19_nonce_personas : map nlabel_string [NAlpha; NdL; NdR; Nd; NEta] = ["alpha"; "dL"; "dR"; "d"; "eta"]%string.
+Proof. reflexivity. Qed.
+Print Assumptions C19_nonce_personas.
+
+Theorem C19_nonce_key_layout : forall seed j k,
+  nonce_key seed (Some j) (Some k) = ([0] ++ le_bytes 32 seed ++ [106] ++ le_bytes 4 (N.of_nat j) ++ [107] ++ le_bytes 4 (N.of_nat k))%N.
+Proof. exact nonce_key_layout. Qed.
+Print Assumptions C19_nonce_key_layout.
+
+Theorem C19_nonce_key_injective : forall seed seed' j j' k k',
+  (seed < 2 ^ 256)%N -> (seed' < 2 ^ 256)%N -> idx_ok j -> idx_ok j' -> idx_ok k -> idx_ok k' ->
+  nonce_key seed j k = nonce_key seed' j' k' -> seed = seed' /\ j = j' /\ k = k'.
+Proof. exact nonce_key_injective. Qed.
+Print Assumptions C19_nonce_key_injective.
+
+(** transcript order: the whole verifier log as one explicit list *)
+Theorem C19_transcript_order : forall s p x, verifier_ops s p = Some x -> x = verifier_ops_pure s p.
+Proof. exact verifier_ops_some. Qed.
+Print Assumptions C19_transcript_order.
+
+(** byte layout of proofs: tag, d1, A, A1, B, r1, s1, then (L_j, R_j) interleaved — and it round-trips *)
+Theorem C19_proof_layout : forall p, to_bytes p =
+  p_tag p :: List.concat (map enc32 (p_d1 p)) ++ enc32 (p_a p) ++ enc32 (p_a1 p) ++ enc32 (p_b p) ++ enc32 (p_r1 p) ++ enc32 (p_s1 p)
+    ++ List.concat (map (fun lr => enc32 (fst lr) ++ enc32 (snd lr)) (combine (p_li p) (p_ri p))).
+Proof. reflexivity. Qed.
+Print Assumptions C19_proof_layout.
+
+Theorem C19_generator_labels :
+  CHAIN_PREFIX = [71; 101; 110; 101; 114; 97; 116; 111; 114; 115; 67; 104; 97; 105; 110]%N /\ kind_byte KG = 71%N /\ kind_byte KH = 72%N.
+Proof. repeat split; reflexivity. Qed.
+Print Assumptions C19_generator_labels.
